@@ -21,6 +21,7 @@ from .kernel import HarnessError, SimFault, Trace, Violation, compare_outputs, f
 from .seams import FAULT_SEAM, HASH_SEAM, seed_rng
 
 MAX_BRUTE = 4096
+MAX_LAYERS = 2500  # layers(a) * layers(b) of a product
 
 
 def _refusal_types() -> tuple[type, ...]:
@@ -363,6 +364,12 @@ class WorldA:
         via = spec.get("via", "symbolic")
         scs = [s.sc for s in srcs]  # type: ignore[union-attr]
         ccs = [s.cc for s in srcs]  # type: ignore[union-attr]
+        if opr == "multiply" and len(scs[0].layers) * len(scs[1].layers) > MAX_LAYERS:
+            # bound of the workload (DESIGN.md 2.4): unfolded products of concatenations reach
+            # thousands of layers and a minute per run; every reference recompilation pays again
+            c.excluded = "bound:too-many-layers"
+            self.tr.count(f"excluded:{c.excluded}")
+            return {"status": "excluded"}
         try:
             if via == "pipeline" and opr in ("integrate", "multiply", "conjugate",
                                              "differentiate", "concatenate"):
@@ -804,9 +811,10 @@ class WorldA:
                     raise Violation("I1", f"{c.name}: tensor '{n}' does not share storage")
             # every tensor the symbolic circuit references must be read through the registry's
             # current entry (a copy or a stale tensor would pass the check above)
+            mods = {id(m) for m in c.cc.modules()}  # once per circuit: modules() is a deep walk
             for sp in oracles.referenced_tensor_parameters(c.sc):
                 tp, _ = oracles.registry_entry(self.ctx, sp)
-                if not any(m is tp for m in c.cc.modules()):
+                if id(tp) not in mods:
                     raise Violation(
                         "I1",
                         f"derived {c.name} does not contain the compiled tensor the registry "
